@@ -20,6 +20,9 @@ namespace bpp
 class AliasParameterListener :
   public ParameterListener
 {
+public:
+  typedef std::map<std::string, std::shared_ptr<AliasParameterListener>> Register;
+
 private:
   std::string id_;
   size_t alias_;
@@ -27,13 +30,20 @@ private:
   std::string name_;
   std::string from_;
 
+  /**
+   * The alias listeners of the object owning the parameters (id -> listener),
+   * used to reach the parameters aliased to the one this listener updates. May be null.
+   */
+  const Register* register_;
+
 public:
-  AliasParameterListener(const std::string& id, size_t alias, ParameterList* pl, const std::string& from) :
+  AliasParameterListener(const std::string& id, size_t alias, ParameterList* pl, const std::string& from, const Register* reg = nullptr) :
     id_(id),
     alias_(alias),
     pl_(pl),
     name_(),
-    from_(from)
+    from_(from),
+    register_(reg)
   {
     // This allow us to check if the parameter position have changed at some point...
     name_ = (*pl_)[alias].getName();
@@ -44,7 +54,8 @@ public:
     alias_(apl.alias_),
     pl_(apl.pl_),
     name_(apl.name_),
-    from_(apl.from_)
+    from_(apl.from_),
+    register_(apl.register_)
   {}
 
   AliasParameterListener& operator=(const AliasParameterListener& apl)
@@ -54,6 +65,7 @@ public:
     pl_    = apl.pl_;
     name_  = apl.name_;
     from_  = apl.from_;
+    register_ = apl.register_;
     return *this;
   }
 
@@ -66,6 +78,8 @@ public:
 
   void setParameterList(ParameterList* pl) { pl_ = pl; }
 
+  void setRegister(const Register* reg) { register_ = reg; }
+
   void parameterNameChanged(ParameterEvent& event) {}
 
   void parameterValueChanged(ParameterEvent& event)
@@ -73,7 +87,19 @@ public:
     Parameter* p = &(*pl_)[alias_];
     if (p->getName() != name_)
       throw Exception("AbstractParameterAliasable::AliasParameterListener::parameterValueChanged. Error, aliased parameter have change, maybe because it was renamed, or a parameter was removed?");
+    double before = p->getValue();
     p->setValue(event.parameter()->Parameter::getValue());
+    // A parameter that already holds the value does not notify its own listeners:
+    // the parameters aliased to it have to follow nevertheless.
+    if (register_ && p->getValue() == before)
+    {
+      ParameterEvent forwarded(p);
+      for (const auto& it : *register_)
+      {
+        if (p->hasParameterListener(it.first))
+          it.second->parameterValueChanged(forwarded);
+      }
+    }
   }
 
   void parameterConstraintChanged(ParameterEvent& event)
